@@ -284,8 +284,13 @@ func describeScheme(c *Ctx, v ssa.Value, g string, isG bool) string {
 func init() {
 	canaryImports["aztec"] = `import "github.com/boombuler/barcode"`
 	canaries = append(canaries, canary{Pkg: "aztec", Rule: "K1a-COLOR-PARAM", Src: `
-func zzVerifCanaryColor(size int, color barcode.ColorScheme) *aztecCode {
-	return &aztecCode{nil, size, nil, barcode.ColorScheme16}
+type zzVerifImg struct {
+	size  int
+	color barcode.ColorScheme
+}
+
+func zzVerifCanaryColor(size int, color barcode.ColorScheme) *zzVerifImg {
+	return &zzVerifImg{size, barcode.ColorScheme16}
 }`})
 	canaryExpect["K1a-COLOR-PARAM"] = []string{"zzVerifCanaryColor"}
 	canaryExpect["K1b-COLOR-DEFAULT-IN-SCOPE"] = []string{"zzVerifCanaryColor"}
